@@ -21,11 +21,11 @@ hprop.install(globals(), hprop.HistoryProperty(
         "applied_instructions is bookkeeping of selected instructions and not part of the 'nothing changes' comparison (the statement enumerates plugs, stalls and request assignments)",
         "reposition instructions carry well-formed link ids",
     ],
-    quick=(16, 60, 40), thorough=(16, 1500, 70), probes=True,
+    quick=(16, 60, 40), thorough=(16, 500, 60), probes=True,
     instr_bias={"batches": True, "reinject": True},
 ))
 FLOORS = {"quick": {"probes": 600, "precedence_checks": 8000, "flag:competing_instructions": 40, "flag:driver_overrode_generator": 30},
-          "thorough": {"probes": 50000}}
+          "thorough": {"probes": 15000}}
 
 
 def extra_evidence(m):
